@@ -197,6 +197,36 @@ impl Relation for StdOp {
             };
             return c.constrain_as_public_input(l, &r);
         }
+        if let Some(rest) = o.strip_prefix("bigsel_") {
+            // two big integers with DIFFERENT size bounds (n and 2n - 8 bits), a condition bit that picks one of them
+            // (select / cond_swap), then an operation whose layout depends on the bounds of its operand
+            let g = s.biguint();
+            let (nb, nb2) = (self.n as u32, 2 * self.n as u32 - 8);
+            let x = g.assign_biguint(l, w(0).map(|v| big_of(&v)), nb)?;
+            let y = g.assign_biguint(l, w(1).map(|v| big_of(&v)), nb2)?;
+            let b: midnight_circuits::types::AssignedBit<F> = s.assign(l, w(2).map(|v| v.as_u64().unwrap_or(0) == 1))?;
+            let r = match rest {
+                "mul" | "add" | "lower_than" => g.select(l, &b, &x, &y)?,
+                _ => g.cond_swap(l, &b, &x, &y)?.0,
+            };
+            match rest {
+                "mul" | "swap_mul" => {
+                    let m = g.mul(l, &r, &r)?;
+                    let c = g.lower_than(l, &x, &m)?;
+                    s.constrain_as_public_input(l, &c)?;
+                }
+                "add" => {
+                    let m = g.add(l, &r, &x)?;
+                    let c = g.lower_than(l, &m, &y)?;
+                    s.constrain_as_public_input(l, &c)?;
+                }
+                _ => {
+                    let c = g.lower_than(l, &r, &x)?;
+                    s.constrain_as_public_input(l, &c)?;
+                }
+            }
+            return Ok(());
+        }
         if let Some(rest) = o.strip_prefix("big_") {
             let g = s.biguint();
             let nb = self.n as u32;
